@@ -223,6 +223,21 @@ def run_graph(ctx, sut, count, edges, placements, roots, tag, root_wrapper=None)
         if isinstance(err, (KeyboardInterrupt, SystemExit)):
             raise
         order, outcome, exc = None, sut.outcome_class(err), err
+    if cyclic and outcome == "SchemaParseError":
+        # "instead of yielding a partial ... order": a consumer stepping through the routine one class at a time
+        # receives nothing before the refusal either
+        stepped = []
+        try:
+            for cls in sut.orderer(*root_elements):
+                stepped.append(cls.__name__)
+        except BaseException as err:  # pylint: disable=broad-except
+            if isinstance(err, (KeyboardInterrupt, SystemExit)):
+                raise
+        ctx.count("cyclic.stepped_through")
+        if stepped:
+            ctx.witness("partial_order_before_refusal", case,
+                        f"cyclic dependencies: the routine yielded {stepped} before raising")
+            return
     if cyclic:
         if outcome == "SchemaParseError":
             ctx.count("cyclic.refused")
